@@ -274,24 +274,21 @@ def py_monitor_lazy(case, trace):
         if t['ignored'] or t['status'] == 'error' or (t['status'] == 'utd' and not case.get('always')):
             return False
         fin = set(e[1] for e in pre if e[0] in ('success', 'skip_uptodate'))
-        first_stage = runlib._deps_at(model, case, _only_finished_as_success(pre), p, len(pre)) - set(model['setup'][p])
-        first_stage |= set(model['taskDep'][p]) | set(model['calcDep'][p])
-        return all(d in fin for d in first_stage)
+        return all(d in fin for d in first_stage_deps(model, p, fin))
 
     sel = [s for s in _effective_sel(case, model) if s >= 0]
     just = set()
     todo = list(sel)
-    full = _only_finished_as_success(trace)
+    fin_all = set(e[1] for e in trace if e[0] in ('success', 'skip_uptodate'))
     while todo:
         t = todo.pop()
         if t in just or not (0 <= t < n):
             continue
         just.add(t)
-        nxt = set(runlib._deps_at(model, case, full, t, len(full))) - set(model['setup'][t])
-        nxt |= set(model['taskDep'][t]) | set(model['calcDep'][t])
+        nxt = first_stage_deps(model, t, fin_all)
         for d in model['setup'][t]:
             i = _first_mention(trace, d)
-            if i is not None and run_pending(t, i):
+            if run_pending(t, len(trace) if i is None else i):
                 nxt.add(d)
         todo += list(nxt)
     for d in range(n):
@@ -311,10 +308,25 @@ def py_monitor_lazy(case, trace):
     return res
 
 
-def _only_finished_as_success(trace):
-    """runlib._deps_at looks at 'success' reports; a calc task found up-to-date delivers as well (the model's calcRes
-    is non-null only for tasks that do deliver), so count skip_uptodate as success for that purpose"""
-    return [['success', e[1]] if e[0] == 'skip_uptodate' else e for e in trace]
+def first_stage_deps(model, t, finished):
+    """dependencies of the first stage of `t` (everything but setup-tasks): task_dep, calc_dep and what the calc_dep
+    tasks in `finished` delivered, transitively through delivered calc_deps (model['calcRes'] is non-null only for
+    tasks that do deliver when they are executed / found up-to-date)"""
+    deps = set(model['taskDep'][t]) | set(model['calcDep'][t])
+    todo = list(model['calcDep'][t])
+    seen = set()
+    while todo:
+        c = todo.pop()
+        if c in seen:
+            continue
+        seen.add(c)
+        cr = model['calcRes'][c]
+        if not cr or c not in finished:
+            continue
+        deps |= set(cr['task']) | set(cr['file']) | set(cr['calc'])
+        todo += list(cr['calc'])
+    deps.discard(-1)
+    return deps
 
 
 def _effective_sel(case, model):
